@@ -840,9 +840,8 @@ def register_maps(E):
     def _(E, st, callee, a, m):
         mp = d(st, a[0]); kind, ents = mp.data
         op = m.group(1)
-        if 'keys' in op:
-            return [(T, Obj('SeqIter', (tuple(k for k, v in ents), 0)))]
-        return [(T, Obj('SeqIter', (tuple(v for k, v in ents), 0)))]
+        seq = tuple(k for k, v in ents) if 'keys' in op else tuple(v for k, v in ents)
+        return E.hash_orders(E, kind == 'HashMap', seq, lambda items: Obj('SeqIter', (tuple(items), 0)))
 
     @model(r'^<' + MAPS + r' as std::iter::FromIterator>::from_iter$')
     def _(E, st, callee, a, m):
